@@ -4,6 +4,17 @@
 K = {"name": "TestKnown", "enum": True}
 
 CHECKS = {
+    "C05": {
+        "level": "exploration",
+        "tests": [
+            {"name": "TestC05Mutations", "checks": [40, 400], "shards": [4, 16], "floor": 0.6},
+            {"name": "TestC05Soup", "checks": [4000, 30000], "shards": [2, 16], "floor": 0.6},
+            {"name": "TestC05Shapes", "enum": True},
+            {"name": "TestC05Blobs", "enum": True},
+            K,
+        ],
+        "assumptions": ["absence of panics is only established on generated paths", "self-referential templates, panicking user callbacks and resource bombs that terminate (huge ranges, huge exponents) are outside the guarantee and not generated"],
+    },
     "C01": {
         "level": "exploration",
         "tests": [
